@@ -314,6 +314,8 @@ func emptyNonEmptyOf(c *emptyCell, et reflect.Type) reflect.Value {
 	panic("empty: no non-empty value for kind " + c.Kind)
 }
 
+type emptyKeyT string
+
 // emptyCall performs the real call for one cell.
 func emptyCall(c *emptyCell) (res error, bad error) {
 	joined := strings.Join(c.Rules, ",")
@@ -440,6 +442,15 @@ func emptyCall(c *emptyCell) (res error, bad error) {
 			}
 			m = reflect.ValueOf(mm)
 		}
+		if c.API == "namedkey" {
+			// the same entries in a map whose key type is a DEFINED string type (type emptyKeyT string)
+			nm := reflect.MakeMap(reflect.MapOf(reflect.TypeOf(emptyKeyT("")), m.Type().Elem()))
+			it := m.MapRange()
+			for it.Next() {
+				nm.SetMapIndex(it.Key().Convert(reflect.TypeOf(emptyKeyT(""))), it.Value())
+			}
+			return valid.Map(nm.Interface(), rm), nil
+		}
 		if c.API == "extrakey" || c.API == "extrakeys" { // entries without any rule must not influence the ruled ones
 			extra := []string{"u1", "u2"}
 			if c.API == "extrakey" {
@@ -515,12 +526,22 @@ func emptyCall(c *emptyCell) (res error, bad error) {
 		if c.By {
 			params = append(params, emptyZz+"=")
 		}
+		if c.API == "enckey" {
+			// the parameter NAMES are written with percent-escapes (F%78 is Fx): a name is decoded like a value
+			for i, p := range params {
+				if strings.HasPrefix(p, emptyFx) {
+					params[i] = "F%78" + p[len(emptyFx):]
+				} else if strings.HasPrefix(p, emptyZz) {
+					params[i] = "%5a%7A" + p[len(emptyZz):]
+				}
+			}
+		}
 		u := "http://h.test/p"
 		if len(params) > 0 {
 			u += "?" + strings.Join(params, "&")
 		}
 		switch c.API {
-		case "", "canon":
+		case "", "canon", "enckey":
 			return valid.Url(u, rm), nil
 		case "ptr":
 			return valid.Url(&u, rm), nil
